@@ -66,7 +66,11 @@ def iter_artifactkit_payloads(
             size = utils.u32(fobj.read(4))
             xorkey = fobj.read(4)
             hints = fobj.read(8)
-            data = fobj.read(size)
+            # never ask for more than the file holds, a regular file allocates the requested size up front
+            data_offset = fobj.tell()
+            remaining = max(fobj.seek(0, io.SEEK_END) - data_offset, 0)
+            fobj.seek(data_offset)
+            data = fobj.read(min(size, remaining))
             payload = utils.xor(data, xorkey)
             yield ArtifactKitPayload(offset=pos, size=size, xorkey=xorkey, hints=hints, payload=payload)
         pos += 1
